@@ -274,4 +274,6 @@ def main(tier):
     run.configs.append({"config": "full", "crates": fx.summary()})
     run_checks(run, fx)
     run.assumptions += ["writeable's integer write_to and core::fmt write the digits they are given"]
+    from ..rules import siblings
+    siblings.check_offset_rounding(run, fx)
     return run.finish(EXPLANATION)
